@@ -10,10 +10,17 @@ def main():
     what = ""
     if "--what" in a:
         i = a.index("--what"); what = a[i + 1]; del a[i:i + 2]
-    name, props, rel, old, new = a
+    name, props, rel = a[:3]
+    pairs = a[3:]
+    if len(pairs) % 2 or not pairs:
+        sys.exit("need old/new pairs")
     src = open(os.path.join("/repo", rel), encoding="utf-8").read()
-    if src.count(old) != 1:
-        sys.exit("old text occurs %d times in %s" % (src.count(old), rel))
+    newsrc = src
+    for i in range(0, len(pairs), 2):
+        old, new = pairs[i], pairs[i + 1]
+        if newsrc.count(old) != 1:
+            sys.exit("old text #%d occurs %d times in %s" % (i // 2, newsrc.count(old), rel))
+        newsrc = newsrc.replace(old, new)
     d = tempfile.mkdtemp(prefix="p2mk-")
     try:
         for item in ("src", "docs", "Cargo.toml", "Cargo.lock", "examples"):
@@ -22,7 +29,7 @@ def main():
             elif os.path.exists(s):
                 os.makedirs(os.path.join(d, "a"), exist_ok=True); shutil.copy2(s, os.path.join(d, "a", item))
         shutil.copytree(os.path.join(d, "a"), os.path.join(d, "b"))
-        open(os.path.join(d, "b", rel), "w", encoding="utf-8").write(src.replace(old, new))
+        open(os.path.join(d, "b", rel), "w", encoding="utf-8").write(newsrc)
         p = subprocess.run(["diff", "-u", os.path.join("a", rel), os.path.join("b", rel)], cwd=d, stdout=subprocess.PIPE, text=True)
         env = dict(os.environ, CARGO_NET_OFFLINE="true", CARGO_TARGET_DIR=os.environ.get("MK_TARGET", "/tmp/p2mk-target"))
         t = subprocess.run(["timeout", "-k", "5", "240", "cargo", "test", "--offline"], cwd=os.path.join(d, "b"), env=env, stdout=subprocess.PIPE, stderr=subprocess.STDOUT, text=True)
@@ -34,7 +41,7 @@ def main():
         os.makedirs(out, exist_ok=True)
         open(os.path.join(out, "patch.diff"), "w").write(p.stdout)
         plist = props.split(",")
-        json.dump({"property": plist[0], "checks": plist, "origin": "hand-written", "what": what, "builds": builds, "tests_pass": passed, "expect": "caught"},
+        json.dump({"property": plist[0], "checks": plist, "origin": os.environ.get("MK_ORIGIN", "hand-written"), "what": what, "builds": builds, "tests_pass": passed, "expect": "caught"},
                   open(os.path.join(out, "meta.json"), "w"), indent=1)
         print(name, "builds" if builds else "DOES NOT BUILD", "tests pass" if passed else "tests FAIL")
     finally:
